@@ -34,7 +34,17 @@ pub fn analyze_order(egraph: &EGraph, enode: &Expr) -> OrderKey {
         Order([keys, _]) | TopN([_, _, keys, _]) => x(keys).clone(),
         // plans that preserve order
         Proj([_, c]) | Filter([_, c]) | Window([_, c]) | Limit([_, _, c]) => x(c).clone(),
-        MergeJoin([_, _, _, _, _, r]) => x(r).clone(),
+        // a merge join emits its rows group by group in join-key order (inside a group the right rows
+        // repeat for every left row), so the output is ordered by the right join keys only, and not
+        // even by those when unmatched left rows are padded with NULLs on the right side
+        MergeJoin([t, _, _, rkeys, _, _]) => {
+            let pads_right = (egraph[*t].nodes.iter()).any(|n| matches!(n, LeftOuter | FullOuter));
+            if pads_right {
+                Box::new([])
+            } else {
+                x(rkeys).clone()
+            }
+        }
         SortAgg([_, _, c]) => x(c).clone(),
         // unordered for other plans
         _ => Box::new([]),
